@@ -244,7 +244,10 @@ inline void match_with_stream(const M& m, const ExecOp& op, const Buf& buf, Outc
 {
     ctpg::match_options mo; mo.set_verbose(op.verbose);
     bool r;
-    if (op.stream == STR_NONE) { ctpg::utils::no_stream ns; r = m.match(mo, buf, ns); }
+    // the shorter public overloads when the options are the defaults
+    if (op.stream == STR_NONE && !op.verbose) r = m.match(buf);
+    else if (op.stream == STR_SIM && !op.verbose && !op.shared_os) { SimStreamBuf sb; std::ostream os(&sb); r = m.match(buf, os); out.stream_bad = !os.good(); }
+    else if (op.stream == STR_NONE) { ctpg::utils::no_stream ns; r = m.match(mo, buf, ns); }
     else if (op.stream == STR_SIM && op.shared_os) { r = m.match(mo, buf, *op.shared_os); out.stream_bad = !op.shared_os->good(); }
     else if (op.stream == STR_SIM) { SimStreamBuf sb; std::ostream os(&sb); r = m.match(mo, buf, os); out.stream_bad = !os.good(); }
     else { std::ostringstream os; r = m.match(mo, buf, static_cast<std::ostream&>(os)); out.oss_text = os.str(); }
@@ -275,7 +278,31 @@ void exec_matcher(const ExecOp& op, Outcome& out)
     try
     {
         bool done = false;
-        if (op.buffer == BUF_CSTRING)
+        if (op.api == API_MATCHER_DEBUG)
+        {
+            // the library's own pattern parser run verbosely over the matcher's pattern, then the automaton dump
+            done = true;
+            if (op.stream == STR_OSS)
+            {
+                std::ostringstream os;
+                std::decay_t<decltype(m)>::debug_parse(os);
+                m.write_diag_str(os);
+                simrt::end_op();
+                out.oss_text = os.str();
+                out.digest = fnv(out.oss_text.data(), out.oss_text.size());
+            }
+            else
+            {
+                SimStreamBuf sb; std::ostream local(&sb);
+                std::ostream& os = op.shared_os ? *op.shared_os : local;
+                std::decay_t<decltype(m)>::debug_parse(os);
+                m.write_diag_str(os);
+                simrt::end_op();
+                out.stream_bad = !os.good();
+            }
+            out.has_value = true;
+        }
+        else if (op.buffer == BUF_CSTRING)
         {
             done = true;
             switch (n + 1)
